@@ -1062,30 +1062,30 @@ func GetAllOrgsUnrotatedVTableCounts(allvtables map[string]*structs.VtableCounts
 	}
 }
 
-func getActiveBaseDirVTable(virtualTableName string) string {
-	var sb strings.Builder
-	sb.WriteString(config.GetRunningConfig().DataPath)
-	sb.WriteString(config.GetHostID())
-	sb.WriteString("/final/")
-	sb.WriteString(virtualTableName + "/")
-	basedir := sb.String()
-	return basedir
-}
-
-func DeleteVirtualTableSegStore(virtualTableName string) {
+// DeleteVirtualTableSegStore drops the open segments of the index of the given org. The directory of an
+// index is shared by all orgs (final/<index>/<streamid>/<suffix>), so only the directories of the
+// segments of this org are removed.
+func DeleteVirtualTableSegStore(virtualTableName string, orgid int64) {
 	allSegStoresLock.Lock()
+	defer allSegStoresLock.Unlock()
 	for streamid, segstore := range allSegStores {
-		if segstore.VirtualTableName == virtualTableName {
-			delete(allSegStores, streamid)
+		if segstore.VirtualTableName != virtualTableName || segstore.OrgId != orgid {
+			continue
 		}
+		delete(allSegStores, streamid)
+		removeSegKeyFromUnrotatedInfo(segstore.SegmentKey)
+		if segstore.segbaseDir == "" {
+			continue
+		}
+		if err := os.RemoveAll(segstore.segbaseDir); err != nil {
+			log.Errorf("DeleteVirtualTableSegStore: Failed to remove directory name=%v, err:%v", segstore.segbaseDir, err)
+		}
+		fileutils.RecursivelyDeleteEmptyParentDirectories(segstore.segbaseDir)
 	}
-	activedir := getActiveBaseDirVTable(virtualTableName)
-	os.RemoveAll(activedir)
-	allSegStoresLock.Unlock()
 }
 
-func DeleteSegmentsForIndex(indexName string) {
-	removeSegmentsByIndexOrSegkeys(nil, indexName)
+func DeleteSegmentsForIndex(indexName string, orgid int64) {
+	removeSegmentsByIndexOrSegkeys(nil, indexName, orgid)
 }
 
 func RemoveSegMetas(segmentsToDelete map[string]*structs.SegMeta) map[string]struct{} {
@@ -1107,8 +1107,8 @@ func RemoveSegBasedirs(segbaseDirs map[string]struct{}) {
 	}
 }
 
-func removeSegmentsByIndexOrSegkeys(segmentsToDelete map[string]struct{}, indexName string) {
-	segbaseDirs := removeSegmetas(segmentsToDelete, indexName)
+func removeSegmentsByIndexOrSegkeys(segmentsToDelete map[string]struct{}, indexName string, orgid int64) {
+	segbaseDirs := removeSegmetasOfOrg(segmentsToDelete, indexName, orgid)
 	for segdir := range segbaseDirs {
 		if err := os.RemoveAll(segdir); err != nil {
 			log.Errorf("RemoveSegments: Failed to remove directory name=%v, err:%v",
